@@ -873,6 +873,7 @@ public:
     {
         FunctionDecl const* fd = job.fd;
         Stmt* body = fd->getBody();
+        if (!body) return;    // defaulted / deleted special members
         json::Object f;
         f["id"] = job.id;
         f["qname"] = job.qname;
@@ -961,13 +962,17 @@ public:
         }
 
         CFG::BuildOptions bo;
-        bo.AddImplicitDtors = true;
-        bo.AddTemporaryDtors = true;
+        // clang 14's CFG builder dereferences a null record layout when it adds member/base destructors
+        // for the destructor of a *dependent* class: build that one CFG without implicit destructors
+        bool depDtor = isa<CXXDestructorDecl>(fd) && fd->isDependentContext();
+        bo.AddImplicitDtors = !depDtor;
+        bo.AddTemporaryDtors = !depDtor;
         bo.AddInitializers = true;
         bo.AddEHEdges = false;
         bo.AddCXXNewAllocator = false;
         bo.AddCXXDefaultInitExprInCtors = true;
         bo.setAllAlwaysAdd();
+        if (getenv("PIKAFACTS_TRACE")) llvm::errs() << "cfg: " << job.qname << " @" << locStr(fd->getLocation()) << "\n";
         std::unique_ptr<CFG> cfg = CFG::buildCFG(fd, body, &ctx, bo);
         if (!cfg)
         {
